@@ -310,6 +310,7 @@ class JaqalParser(Parser):
     def import_statement(self, tree):
         # This rule exists so that "IMPORT" and "AS" are not unused
         # tokens.
+        self.set_pos(tree)
         self.raise_error(f"Import statement not yet implemented")
 
     # Gate statement
